@@ -282,7 +282,19 @@ func c18Do(s *c18Shared, op C18Op) string {
 		id3, ok3 := s.ssts[a%3].FindByName("a")
 		id4, ok4 := s.lst.FindByName([]string{"loc1", "a", "zz", "nope"}[a%4])
 		tok, err := ion.NewSymbolToken(s.lst, "f")
-		return fmt.Sprintf("%d %v %s %v %d %v %d %v %v %v", id, ok, tx, ok2, id3, ok3, id4, ok4, tok.LocalSID, err)
+		// what Symbols() / Imports() hand out belongs to the caller: writing to it
+		// must not reach the table
+		for _, list := range [][]string{s.ssts[a%3].Symbols(), s.lst.Symbols(), s.built.Symbols()} {
+			for i := range list {
+				list[i] = "scribbled"
+			}
+		}
+		if imps := s.lst.Imports(); len(imps) > 0 {
+			imps[len(imps)-1] = nil
+		}
+		tx5, ok5 := s.ssts[a%3].FindByID(1)
+		tx6, ok6 := s.lst.FindByID(s.lst.MaxID())
+		return fmt.Sprintf("%d %v %s %v %d %v %d %v %v %v %s %v %s %v %d", id, ok, tx, ok2, id3, ok3, id4, ok4, tok.LocalSID, err, tx5, ok5, tx6, ok6, len(s.lst.Imports()))
 	case 9:
 		d, err := ion.ParseDecimal([]string{"1.5", "-0d3", "123456789012345678901234567890d-5", "1d300"}[a%4])
 		ts, err2 := ion.ParseTimestamp([]string{"2020-02-29T01:02:03.5+01:00", "2001T", "2001-02-03T04:05Z", "2001-02-03T04:05:06.123456789-00:00"}[a%4])
